@@ -812,8 +812,9 @@ func (a *act) hintsAfter(in ssa.Instruction, b *ssa.BasicBlock, reach string, st
 		a.hintAnchors = map[ssa.Instruction][]*AssertHint{}
 		for _, h := range a.spec.Asserts {
 			var best ssa.Instruction
+			bestIdx := -1
 			for _, blk := range a.fn.Blocks {
-				for _, ins := range blk.Instrs {
+				for insIdx, ins := range blk.Instrs {
 					if _, isDbg := ins.(*ssa.DebugRef); isDbg {
 						continue
 					}
@@ -829,8 +830,14 @@ func (a *act) hintsAfter(in ssa.Instruction, b *ssa.BasicBlock, reach string, st
 						continue
 					}
 					if strings.Contains(fx.eng.sourceLine(p), h.Snippet) {
-						if best == nil || ins.Pos() >= best.Pos() {
-							best = ins
+						// the instruction of the statement that executes last (a call's arguments are evaluated before it)
+						later := best == nil
+						if best != nil {
+							bb := best.Block()
+							later = (bb == blk && insIdx > bestIdx) || (bb != blk && bb.Dominates(blk)) || (bb != blk && !blk.Dominates(bb) && ins.Pos() >= best.Pos())
+						}
+						if later {
+							best, bestIdx = ins, insIdx
 						}
 					}
 				}
@@ -847,6 +854,21 @@ func (a *act) hintsAfter(in ssa.Instruction, b *ssa.BasicBlock, reach string, st
 		env := &SEnv{vars: map[string]Val{}, act: a, header: b, pkg: a.spec.Pkg, nowOld: fx.nowEntry, qn: &qn, atInstr: in}
 		for _, p := range a.fn.Params {
 			env.vars[p.Name()] = a.vals[p]
+		}
+		if h.Use != nil {
+			func() {
+				defer func() {
+					if r := recover(); r != nil {
+						if se, ok := r.(specError); ok {
+							fx.degraded = append(fx.degraded, fmt.Sprintf("uselemma %s does not resolve: %s", h.Use.Key, se.msg))
+							return
+						}
+						panic(r)
+					}
+				}()
+				fx.ctx.Assert(Imp(reach, fx.lemmaInstance(a, h.Use, env, st)))
+			}()
+			continue
 		}
 		t := a.safeSpec(h.C, env, st)
 		name := h.C.Name
